@@ -360,6 +360,10 @@ void once_and_tls() {
     ets.local(ex) = 2;
     tbb::enumerable_thread_specific<std::string, tbb::cache_aligned_allocator<std::string>, tbb::ets_key_per_instance> ets2(std::string("a"));
     ets2.local() += "b";
+    decltype(ets2) ets2b(std::move(ets2));     // internal_swap -> table_swap of both ets_base specialisations
+    ets2 = std::move(ets2b);
+    tbb::enumerable_thread_specific<int> ets5(std::move(ets));
+    ets = std::move(ets5);
     tbb::enumerable_thread_specific<int> ets3([]() -> int { return 5; });
     ets3.local();
     int s = ets.combine([](int a, int b) -> int { return a + b; });
